@@ -90,6 +90,11 @@ static void c07_case(const KeyCfg *k, int be, int nblk, int dir, int family, int
     snprintf(cd, sizeof(cd), "c07 %d %d %d %d %d %d %d %d %d %d", (int)k->c, k->klen, k->rounds, k->mode, k->ki, be, nblk, dir, family, inplace);
     kdesc(k, kd, sizeof(kd));
     if (par_init(k->c, be, &o) == 0) { violation("C07/init-failed", cd, "init returned 0"); return; }
+    if (par_backend(k->c, &o) < 0) {   /* not one of the library's function tables (nor NULL): init left the field unassigned */
+        snprintf(sig, sizeof(sig), "C07/%s/init-left-unknown-vtable", cipher_name(k->c));
+        violation(sig, cd, "after init on a painted object with back end %s available, the object's function table is neither NULL nor one of the library's", be_name(be));
+        return;
+    }
     if (par_backend(k->c, &o) != be) engine_error("parallel pinning failed: wanted %s got %d", be_name(be), par_backend(k->c, &o));
     if ((int)o.raw.parallel_size != par_batch(k->c, be) || o.raw.parallel_size == 0 || o.raw.parallel_size % (size_t)bs) {
         snprintf(sig, sizeof(sig), "C07/%s/parallel_size", cipher_name(k->c));
